@@ -3241,10 +3241,10 @@ fn count_relation(ctx: &Ctx, fx: &Fx, thorough: bool) {
 // was accepted on the same thread. (A collision of a multiplicative 64-bit hash cannot be enumerated; see DESIGN.)
 
 #[derive(Clone, Copy, Debug, PartialEq, Eq, PartialOrd, Ord)]
-enum FoldField { Signature, Digest, SigningTime, EeKey }
+enum FoldField { Signature, Digest, SigningTime, EeKey, DigestResigned }
 
 impl FoldField {
-    fn name(self) -> &'static str { match self { FoldField::Signature => "signature value", FoldField::Digest => "message-digest value", FoldField::SigningTime => "signing-time digits", FoldField::EeKey => "EE key modulus" } }
+    fn name(self) -> &'static str { match self { FoldField::Signature => "signature value", FoldField::Digest => "message-digest value", FoldField::SigningTime => "signing-time digits", FoldField::EeKey => "EE key modulus", FoldField::DigestResigned => "message-digest value (attributes signed again over the changed value)" } }
 }
 
 #[derive(Clone, Copy, Debug, PartialEq, Eq, PartialOrd, Ord)]
@@ -3352,8 +3352,8 @@ fn fold_collisions(ctx: &Ctx, fx: &Fx, ees: &BTreeMap<(Kind, EeV), Vec<u8>>, tho
         let modulus_at = find_sub(cert, spki).and_then(|a| find_sub(spki, &[0x02, 0x82, 0x01, 0x01, 0x00]).map(|b| a + b + 5));
         let Some(modulus_at) = modulus_at else { ctx.machinery_error("history.fold_collision: cannot locate the EE key's modulus"); continue };
         let full = k == Kind::Gen;
-        for field in [FoldField::Signature, FoldField::Digest, FoldField::SigningTime, FoldField::EeKey] {
-            let orig: Vec<u8> = match field { FoldField::Signature => sig.clone(), FoldField::Digest => digest.clone(), FoldField::SigningTime => time[2..14].to_vec(), FoldField::EeKey => cert[modulus_at..modulus_at + 256].to_vec() };
+        for field in [FoldField::Signature, FoldField::Digest, FoldField::SigningTime, FoldField::EeKey, FoldField::DigestResigned] {
+            let orig: Vec<u8> = match field { FoldField::Signature => sig.clone(), FoldField::Digest | FoldField::DigestResigned => digest.clone(), FoldField::SigningTime => time[2..14].to_vec(), FoldField::EeKey => cert[modulus_at..modulus_at + 256].to_vec() };
             let l = orig.len();
             let dists: Vec<usize> = if !full { vec![8] } else if thorough { vec![1, 2, 4, 8, 16, l / 2] } else { vec![1, 4, 8, l / 2] };
             for op in fold_ops(l, &dists, full, field == FoldField::Signature) {
@@ -3361,6 +3361,9 @@ fn fold_collisions(ctx: &Ctx, fx: &Fx, ees: &BTreeMap<(Kind, EeV), Vec<u8>>, tho
                 let bytes = match field {
                     FoldField::Signature => wrap_parts(fx, k, &p.content, &attrs, &t, cert),
                     FoldField::Digest => wrap_parts(fx, k, &p.content, &attrs_of(&t, &time), &sig, cert),
+                    // round 13: the changed digest under a signature made over it -- the signature verifies, so only the
+                    // comparison of the digest with SHA-256(content) can reject (a comparison that folds words would not)
+                    FoldField::DigestResigned => { let a = attrs_of(&t, &time); let s2 = fx.s.sign_raw(K_EE, &der::signed_attrs_tbs(&a)); wrap_parts(fx, k, &p.content, &a, &s2, cert) }
                     FoldField::SigningTime => { let mut tt = time.clone(); tt[2..14].copy_from_slice(&t); wrap_parts(fx, k, &p.content, &attrs_of(&digest, &tt), &sig, cert) }
                     FoldField::EeKey => { let mut c = cert.clone(); c[modulus_at..modulus_at + 256].copy_from_slice(&t); wrap_parts(fx, k, &p.content, &attrs, &sig, &c) }
                 };
